@@ -594,7 +594,14 @@ class Evaluator:
             callee = f"{recv[1]}.{attr}" if recv[0] == "sym" else None
         else:
             recv = self.term(f, st, log, nid)
-        args = tuple(self.term(a, st, log, nid) for a in e.args)
+        args_l: list = []
+        for a in e.args:
+            t_ = self.term(a, st, log, nid)
+            if t_[0] == "star" and t_[1][0] in ("tuple", "list") and not any(y[0] == "star" for y in t_[1][1:]):
+                args_l.extend(t_[1][1:])  # f(*(a, b)) == f(a, b)
+            else:
+                args_l.append(t_)
+        args = tuple(args_l)
         kwargs = {k.arg if k.arg is not None else "**": self.term(k.value, st, log, nid) for k in e.keywords}
         if callee == "cast" and len(args) == 2:
             return args[1]
